@@ -11,7 +11,10 @@ ROUND4 = os.environ.get('ROUND4', '0') == '1'
 ROUND5 = os.environ.get('ROUND5', '0') == '1'
 ROUND6 = os.environ.get('ROUND6', '0') == '1'
 ROUND7 = os.environ.get('ROUND7', '0') == '1'
-if ROUND7:     # seventh round M27..M29: agents name v/w; M27 keeps v/w, M28 -> x/y, M29 -> z/{ (mapped to za/zb)
+ROUND8 = os.environ.get('ROUND8', '0') == '1'
+if ROUND8:     # eighth round M30..M32: ids get the agent number in front of the letter (C05-30v, C05-31v, ...)
+    cands = sorted(glob.glob('/tmp/M3[0-2]_out/C??-?'))
+elif ROUND7:     # seventh round M27..M29: agents name v/w; M27 keeps v/w, M28 -> x/y, M29 -> z/{ (mapped to za/zb)
     cands = sorted(glob.glob('/tmp/M2[7-9]_out/C??-?'))
 elif ROUND6:     # sixth round M24..M26 (cross-property, convenience APIs): M24 keeps p/q, M25 -> r/s, M26 -> t/u
     cands = sorted(glob.glob('/tmp/M2[4-6]_out/C??-?'))
@@ -29,6 +32,8 @@ else:
 
 def sid_of(c):
     b = os.path.basename(c)
+    if ROUND8:
+        return b[:-1] + c.split('/')[2].split('_')[0][1:] + b[-1]
     if ROUND7:
         ag = c.split('/')[2].split('_')[0]
         k = ord(b[-1]) - ord('v')
